@@ -135,9 +135,9 @@ AsImplemented == [p \in Points |-> PointTable[p].kind]
 Required      == [AsImplemented EXCEPT !["all_dot_brackets"] = "sorted"]
 
 \* ------------------------------------------------------------------ semantics of a point
-\* Abstract items 1..3 flow through the pipeline; items 1 and 2 conflict (claim the same
+\* Abstract items 1..4 flow through the pipeline; items 1 and 2 conflict (claim the same
 \* edge / atom / residue), so a greedy point keeps whichever of them comes first.
-Input == <<1, 2, 3>>
+Input == <<1, 2, 3, 4>>
 Conflict(a, b) == {a, b} = {1, 2}
 
 Perms(S) == { f \in [1..Cardinality(S) -> S] : \A i, j \in 1..Cardinality(S) : i # j => f[i] # f[j] }
